@@ -430,9 +430,22 @@ Proof.
   apply existsb_exists. exists (c, ch). split; [exact Hin|apply existsb_eqb_In; exact Hx].
 Qed.
 
+Lemma linv_clear_subs gs st : linv st -> linv (l_clear_subs gs st).
+Proof. intros (H1 & H2 & H3). unfold l_clear_subs. apply linv_recreate. repeat split; assumption. Qed.
+
+Lemma linv_strip gl st : linv st -> linv (l_strip gl st).
+Proof.
+  intros H. unfold l_strip.
+  destruct (pop_grouping (l_no_protos st) gl) as [g1 gl1].
+  destruct (pop_grouping (l_clear_cands g1 (l_no_protos st)) gl1) as [g2 gl2].
+  destruct (pop_grouping (l_clear_cands g2 (l_clear_cands g1 (l_no_protos st))) gl2) as [g3 gl3].
+  apply linv_clear_regions, linv_clear_subs, linv_clear_cands, linv_clear_cands.
+  destruct H as (H1 & H2 & H3). repeat split; assumption.
+Qed.
+
 Lemma linv_apply st o : linv st -> linv (l_apply st o).
 Proof.
-  intros H. destruct o as [p|c ch|s|gs| |gs|gs|gs]; cbn [l_apply].
+  intros H. destruct o as [p|c ch|s|gs| |gs|gs|gs|c ch|gl]; cbn [l_apply].
   - destruct H as (H1 & H2 & H3). repeat split; assumption.
   - destruct H as (H1 & H2 & H3). repeat split; cbn [l_pparent l_aparent l_cdsreg l_cands l_regions]; [|exact H2|exact H3].
     intros x c'. rewrite lget_set_all. destruct (existsb (Z.eqb x) ch) eqn:E.
@@ -444,6 +457,24 @@ Proof.
   - apply linv_clear_cands; exact H.
   - unfold l_clear_subs. apply linv_recreate. destruct H as (H1 & H2 & H3). repeat split; assumption.
   - apply linv_clear_cands. destruct H as (H1 & H2 & H3). repeat split; assumption.
+  - destruct H as (H1 & H2 & H3). repeat split; cbn [l_pparent l_aparent l_cdsreg l_cands l_regions]; [|exact H2|exact H3].
+    intros x c' Hr. destruct (H1 x c' Hr) as (ch' & Hin & Hx). exists ch'. split; [right; exact Hin|exact Hx].
+  - apply linv_strip; exact H.
+Qed.
+
+(* after strip_antismash_annotations nothing is linked at all *)
+Lemma strip_no_regions gl st : l_regions (l_strip gl st) = [] /\ l_cands (l_strip gl st) = [].
+Proof.
+  unfold l_strip.
+  destruct (pop_grouping (l_no_protos st) gl) as [g1 gl1].
+  destruct (pop_grouping (l_clear_cands g1 (l_no_protos st)) gl1) as [g2 gl2].
+  destruct (pop_grouping (l_clear_cands g2 (l_clear_cands g1 (l_no_protos st))) gl2) as [g3 gl3].
+  split; [reflexivity|]. cbn [l_clear_regions l_cands].
+  assert (Hc : forall gs st', l_cands (l_create gs st') = l_cands st').
+  { induction gs as [|[ms cds] gs IH]; intros st'; cbn [l_create]; [reflexivity|]. rewrite IH. reflexivity. }
+  assert (Hr : forall gs st', l_cands (l_recreate gs st') = l_cands st').
+  { intros gs st'. unfold l_recreate. destruct (l_regions st'); [reflexivity|]. rewrite Hc. reflexivity. }
+  unfold l_clear_subs. rewrite Hr. cbn [l_cands]. unfold l_clear_cands. rewrite Hr. reflexivity.
 Qed.
 
 Lemma linv_history : forall ops st, linv st -> linv (fold_left l_apply ops st).
@@ -1032,4 +1063,80 @@ Proof.
   destruct (add_sections_simple N secs [] (Forall_nil _) I Htight Hord) as (regs & Hr & Hview & Hsr & Hsd); [intros r sec []|].
   exists secs, regs. unfold create_regions. rewrite Hsec. cbn [bind].
   rewrite (regions_are_sections N _ Hwf). repeat split; assumption.
+Qed.
+
+
+(* ====================================================================================
+   A gene added after the regions: what the bisected window of _link_cds_to_parent finds
+   ==================================================================================== *)
+Lemma hits_from_sound : forall window g k i, In i (hits_from k window g) ->
+  (k <= i)%nat /\ exists r, nth_error window (i - k) = Some r /\ contains r g = true.
+Proof.
+  induction window as [|r t IH]; intros g k i Hin; cbn [hits_from] in Hin; [destruct Hin|].
+  destruct (contains r g) eqn:E.
+  - destruct Hin as [<-|Hin].
+    + split; [lia|]. exists r. rewrite Nat.sub_diag. split; [reflexivity|exact E].
+    + destruct (IH g (S k) i Hin) as (Hle & r' & Hn & Hc). split; [lia|]. exists r'. split; [|exact Hc].
+      replace (i - k)%nat with (S (i - S k)) by lia. exact Hn.
+  - destruct (IH g (S k) i Hin) as (Hle & r' & Hn & Hc). split; [lia|]. exists r'. split; [|exact Hc].
+    replace (i - k)%nat with (S (i - S k)) by lia. exact Hn.
+Qed.
+
+Lemma nth_error_firstn_some {A} : forall n (l : list A) j x, nth_error (firstn n l) j = Some x -> nth_error l j = Some x.
+Proof.
+  induction n as [|n IH]; intros l j x H; [destruct j; discriminate|].
+  destruct l as [|y l]; [destruct j; discriminate|]. destruct j as [|j]; [exact H|]. cbn in H |- *. apply IH. exact H.
+Qed.
+Lemma nth_error_skipn_ {A} : forall n (l : list A) j, nth_error (skipn n l) j = nth_error l (n + j).
+Proof.
+  induction n as [|n IH]; intros l j; [reflexivity|]. destruct l as [|y l]; [destruct j; reflexivity|]. cbn. apply IH.
+Qed.
+
+(* the gene is only ever linked to a region of the record that contains it *)
+Lemma link_hits_sound regs g i : In i (link_hits regs g) ->
+  exists r, nth_error regs i = Some r /\ contains r g = true.
+Proof.
+  unfold link_hits, link_window. intros Hin.
+  apply hits_from_sound in Hin. destruct Hin as (Hle & r & Hn & Hc). exists r. split; [|exact Hc].
+  apply nth_error_firstn_some in Hn. rewrite nth_error_skipn_ in Hn. rewrite <- Hn. f_equal. lia.
+Qed.
+
+(* ... but not to every one: circular record of 1000, sub-regions 900..50 (origin-spanning), 100..200, 400..500,
+   600..700 give four regions; a gene at 950..980, inside the first region, is linked to none of them when it is
+   added after the regions (the origin-spanning region sorts first, the bisection ends at the other end of the list);
+   a gene at 10..40, in the part after the origin, is linked *)
+Lemma late_gene_witness :
+  let sub i l := mkCA i 0 l in
+  let supply := [sub 0 [mkPart 900 1000 1; mkPart 0 50 1]; sub 1 [mkPart 100 200 1]; sub 2 [mkPart 400 500 1];
+                 sub 3 [mkPart 600 700 1]] in
+  exists regs r, record_regions 1000 true supply = Ok regs /\ In r regs /\
+    contains (rloc r) [mkPart 950 980 1] = true /\ contains (rloc r) [mkPart 10 40 1] = true /\
+    link_hits (map rloc regs) [mkPart 950 980 1] = [] /\
+    link_hits (map rloc regs) [mkPart 10 40 1] = [0%nat].
+Proof.
+  cbn zeta. eexists. eexists. split; [vm_compute; reflexivity|]. split; [left; reflexivity|].
+  repeat split; vm_compute; reflexivity.
+Qed.
+
+(* after a history that ends with strip_antismash_annotations no link is left at all *)
+Lemma strip_resets_everything : forall ops gl, let st := fold_left l_apply (ops ++ [LStrip gl]) l_empty in
+  (forall p, lget p (l_pparent st) = None) /\ (forall a, lget a (l_aparent st) = None) /\
+  (forall g, lget g (l_cdsreg st) = None).
+Proof.
+  intros ops gl st. destruct (no_stale_links (ops ++ [LStrip gl])) as (H1 & H2 & H3). fold st in H1, H2, H3.
+  assert (Hst : st = l_strip gl (fold_left l_apply ops l_empty)).
+  { unfold st. rewrite fold_left_app. reflexivity. }
+  destruct (strip_no_regions gl (fold_left l_apply ops l_empty)) as [Hr Hc]. rewrite <- Hst in Hr, Hc.
+  rewrite Hr in H2, H3. rewrite Hc in H1. repeat split.
+  - intros p. destruct (lget p (l_pparent st)) as [c|] eqn:E; [destruct (H1 p c E)|reflexivity].
+  - intros a. destruct (lget a (l_aparent st)) as [r|] eqn:E; [destruct (H2 a r E)|reflexivity].
+  - intros g. destruct (lget g (l_cdsreg st)) as [r|] eqn:E; [destruct (H3 g r E)|reflexivity].
+Qed.
+
+Lemma late_gene_refuted :
+  exists N supply regs r g, record_regions N true supply = Ok regs /\ In r regs /\
+    contains (rloc r) g = true /\ link_hits (map rloc regs) g = [].
+Proof.
+  destruct late_gene_witness as (regs & r & H1 & H2 & H3 & _ & H5 & _).
+  eexists. eexists. exists regs, r. eexists. repeat split; eassumption.
 Qed.
